@@ -104,6 +104,7 @@ func (d *Dest) Run(ctx context.Context, s pconnector.DestinationRunStream) error
 	d.st = st
 	d.running = true
 	run := d.run
+	st.s.onSent = func(req pconnector.DestinationRunRequest) { d.onWrite(req, st, run) }
 	d.mu.Unlock()
 	go func() {
 		<-ctx.Done()
@@ -159,29 +160,31 @@ func (d *Dest) describe(r opencdc.Record) (tag string, extra []any) {
 func (d *Dest) recvLoop(ctx context.Context, st *dstStream, run int) {
 	srv := st.Server()
 	for {
-		req, err := srv.Recv()
-		if err != nil {
+		if _, err := srv.Recv(); err != nil {
 			return
 		}
-		d.mu.Lock()
-		fail := false
-		for _, r := range req.Records {
-			tag, extra := d.describe(r)
-			d.written++
-			kv := append(append([]any{"conn", d.Cfg.ID, "run", run}, TagKV(tag)...), extra...)
-			d.W.Log.Add(d.ev("Write"), kv...) // engine -> env output: logged at receipt
-			d.pending = append(d.pending, pendingRec{tag: tag, pos: r.Position})
-			if d.Cfg.WriteErrAt > 0 && d.written == d.Cfg.WriteErrAt {
-				fail = true
-			}
+	}
+}
+
+// onWrite runs in the engine's goroutine right after the write request was handed over.
+func (d *Dest) onWrite(req pconnector.DestinationRunRequest, st *dstStream, run int) {
+	d.mu.Lock()
+	fail := false
+	for _, r := range req.Records {
+		tag, extra := d.describe(r)
+		d.written++
+		kv := append(append([]any{"conn", d.Cfg.ID, "run", run}, TagKV(tag)...), extra...)
+		d.W.Log.Add(d.ev("Write"), kv...) // engine -> env output: logged at receipt
+		d.pending = append(d.pending, pendingRec{tag: tag, pos: r.Position})
+		if d.Cfg.WriteErrAt > 0 && d.written == d.Cfg.WriteErrAt {
+			fail = true
 		}
-		d.cond.Broadcast()
-		d.mu.Unlock()
-		if fail {
-			d.W.Log.Add("Fault", "what", "write-err", "conn", d.Cfg.ID, "err", d.Cfg.WriteErr)
-			st.s.close(toErr(d.Cfg.WriteErr))
-			return
-		}
+	}
+	d.cond.Broadcast()
+	d.mu.Unlock()
+	if fail {
+		d.W.Log.Add("Fault", "what", "write-err", "conn", d.Cfg.ID, "err", d.Cfg.WriteErr)
+		st.s.close(toErr(d.Cfg.WriteErr))
 	}
 }
 
